@@ -55,6 +55,14 @@ AREAS = {
         "targets": ["Base/Str.vo", "Model/Cli.vo"],
         "property": "C16 (file_name / fix_path of Model/Cli.v; also used by C07 C08 C17)",
     },
+    # stage 5: analysis code (store discipline: docs/translator.md)
+    "mapmatch": {
+        "module": "MapMatchGen",
+        "bridge": "Bridge/MapMatchBridge.v",
+        "prims": ["GoPrims", "MapPrims"],
+        "targets": ["Base/Str.vo", "Proofs/MapperProofs.vo", "Proofs/MapperAttribProofs.vo"],
+        "property": "C05 C09 C15 (makeTypeMatch / canNameMatch / matchType of internal/mapper/match.go = step_match pass of Model/Mapper.v)",
+    },
     "enum": {
         "module": "EnumGen",
         "bridge": "Bridge/EnumBridge.v",
